@@ -527,6 +527,125 @@ def run(repo, rep, tier):
                        dyninfo['parse_methods'], dyninfo['value_ctors']))
     r4.notes.append('regex guards evaluated: %s' % log[:6])
 
+    # ---- R2a: a possibly-None reply is not used as a sequence -----------
+    r2 = rep.rule('C02.R2a', 'the possibly-None result of _imethodcall is '
+                  'tested before it is used as a sequence')
+    imc = envs['_imethodcall']
+    may_none = any(isinstance(n, ast.Assign) and
+                   isinstance(n.value, ast.Constant) and
+                   n.value.value is None and
+                   any(isinstance(r_, ast.Return) and
+                       norm(r_.value) == norm(n.targets[0])
+                       for r_ in walk_no_nested(imc.node))
+                   for n in walk_no_nested(imc.node))
+    if not may_none:
+        raise AnalysisError('_imethodcall no longer returns None for an '
+                            'empty response (R2a anchor)')
+
+    def uses_as_sequence(func, pname):
+        """statements of func that iterate/subscript `pname` without a
+        dominating None test"""
+        out = []
+        fx = stmt_facts(func.node)
+        # `if x is None: x = <non-None>` at the top level of the function
+        # normalises x for everything that follows
+        norm_line = None
+        for s_ in func.body:
+            if isinstance(s_, ast.If) and \
+                    norm(s_.test) == pname + ' is None' and any(
+                        isinstance(a_, ast.Assign) and
+                        norm(a_.targets[0]) == pname and
+                        not (isinstance(a_.value, ast.Constant) and
+                             a_.value.value is None)
+                        for a_ in s_.body):
+                norm_line = s_.end_lineno
+        for st, (fs, _) in fx.items():
+            if norm_line is not None and st.lineno > norm_line:
+                continue
+            guarded = any(
+                (norm(t) == pname + ' is None' and not pol) or
+                (norm(t) == pname + ' is not None' and pol) or
+                (norm(t) == pname and pol) or
+                (norm(t) == 'not ' + pname and not pol)
+                for t, pol in fs)
+            if guarded:
+                continue
+            exprs = []
+            if isinstance(st, (ast.For, ast.AsyncFor)):
+                if norm(st.iter) == pname:
+                    out.append((st, 'iterated'))
+                continue
+            if isinstance(st, (ast.If, ast.While, ast.Try, ast.With)):
+                continue
+            for x in ast.walk(st):
+                if isinstance(x, ast.Subscript) and norm(x.value) == pname \
+                        and isinstance(x.ctx, ast.Load):
+                    # `[] if result is None else [.. result[0] ..]`
+                    g = expr_guards(st, x)
+                    if any((norm(t) == pname + ' is None' and not pol)
+                           for t, pol in g):
+                        continue
+                    out.append((st, 'subscripted'))
+                if isinstance(x, ast.comprehension) and \
+                        norm(x.iter) == pname:
+                    out.append((st, 'iterated'))
+        return out
+
+    for op in ops:
+        if op.envelope != '_imethodcall':
+            continue
+        f = op.func
+        var = None
+        for n in walk_no_nested(f.node):
+            if isinstance(n, ast.Assign) and any(
+                    n.value is c for c in op.envelope_calls) and \
+                    isinstance(n.targets[0], ast.Name):
+                var = n.targets[0].id
+        if var is None:
+            continue           # void operation: result not used
+        r2.sites += 1
+        r2.functions.add(f.fq)
+        bad = list(uses_as_sequence(f, var))
+        # passed on to a helper that uses its parameter as a sequence
+        fx = stmt_facts(f.node)
+        for st, (fs, _) in fx.items():
+            if isinstance(st, (ast.If, ast.While, ast.Try, ast.With,
+                               ast.For)):
+                continue
+            guarded = any((norm(t) == var + ' is None' and not pol)
+                          for t, pol in fs)
+            if guarded:
+                continue
+            for c in ast.walk(st):
+                if isinstance(c, ast.Call) and \
+                        (dotted(c.func) or '').startswith('self._get_'):
+                    h = conn.methods.get(dotted(c.func)[5:])
+                    if h is None:
+                        continue
+                    hp = [p_ for p_ in h.params if p_ != 'self']
+                    for i, a in enumerate(c.args):
+                        if isinstance(a, ast.Name) and a.id == var and \
+                                i < len(hp):
+                            for st2, how in uses_as_sequence(h, hp[i]):
+                                bad.append((st, '%s by %s()' % (how, h.name)))
+        r2.ob(not bad, f.name, {'operation': f.name, 'result_var': var,
+                                'unguarded_uses': [norm(s_, 60)
+                                                   for s_, _ in bad][:3]})
+        seen_ = set()
+        for st, how in bad:
+            k_ = (how,)
+            if k_ in seen_:
+                continue
+            seen_.add(k_)
+            rep.finding(r2, f.qualname, '%s %s' % (var, how),
+                        'none-result', OPS, st.lineno,
+                        '_imethodcall returns None for an IMETHODRESPONSE '
+                        'without children, but %r is %s without a None '
+                        'test: TypeError instead of a pywbem error for '
+                        'such a reply' % (var, how))
+    if r2.sites < 20:
+        raise AnalysisError('only %d result-using operations found'
+                            % r2.sites)
     # ---- R5 ---------------------------------------------------------------
     for op in ops:
         f = op.func
